@@ -176,3 +176,149 @@ def fault_strategy(targets, n=4, maxk=120):
         return st.just([])
     return st.lists(st.fixed_dictionaries({'k': st.integers(0, maxk), 'target': st.sampled_from(targets),
                                            'token': st.just([100])}), min_size=0, max_size=n)
+
+
+# ---------------------------------------------------------------------------
+@st.composite
+def whole_programs(draw, tier, first_failures=False, size=None):
+    """Valid programs over the whole public API (C02, C03): timers, flags, tracked values,
+    locks, queues, channels, resources, pipes, tickers, scopes/until, cancellations,
+    collect/first.  Biased to many activities becoming runnable in one time step through
+    different mechanisms and to signals racing each other."""
+    big = tier == 'thorough'
+    nm = Namer()
+    maxdepth = 2
+    T = [0, 0, 0.5, 1, 1, 2]                      # few distinct dates: collisions are the norm
+    sl = lambda: {'op': 'sleep', 'd': draw(st.sampled_from(T))}  # noqa
+    objs = {'flags': 3, 'tracked': [0, 1], 'locks': 2, 'queues': 2, 'channels': 1,
+            'resources': [{'kind': draw(st.sampled_from(['cap', 'res'])), 'name': 'R', 'levels': {'a': 3, 'b': 2}}],
+            'pipes': [{'thr': 2}, {'unbounded': True}]}
+    resk = objs['resources'][0]['kind']
+    item = [0]
+    targets = []
+
+    def cond(depth=0):
+        k = draw(st.integers(0, 9))
+        if k < 3:
+            return ['flag', draw(st.integers(0, 2))]
+        if k < 4:
+            return ['not', ['flag', draw(st.integers(0, 2))]]
+        if k < 6:
+            return ['tcmp', draw(st.integers(0, 1)), draw(st.sampled_from(['<', '<=', '==', '!=', '>=', '>'])), draw(st.integers(0, 3))]
+        if k < 7:
+            return [draw(st.sampled_from(['time_ge', 'time_eq'])), draw(st.sampled_from([0, 1, 2, 3]))]
+        if k < 8:
+            return ['rcmp', 'R', '>=', {'a': draw(st.integers(0, 3))}]
+        if depth < 2:
+            return [draw(st.sampled_from(['and', 'or'])), cond(depth + 1), cond(depth + 1)]
+        return ['instant']
+
+    def notif():
+        if draw(st.integers(0, 2)) == 0:
+            return ['delay', draw(st.sampled_from([0, 0.5, 1, 1, 2, 3]))]
+        return cond()
+
+    def simple_act(fail_ok=True):
+        steps = [sl() for _ in range(draw(st.integers(0, 2)))]
+        if fail_ok and draw(st.integers(0, 3)) == 0:
+            steps.append({'op': 'raise', 'eid': nm.eid(), 'cls': draw(st.sampled_from(EXC))})
+        else:
+            steps.append({'op': 'return', 'v': draw(st.integers(0, 9))})
+        return {'name': nm.act(), 'steps': steps}
+
+    def step(depth, siblings, chain):
+        r = draw(st.integers(0, 39))
+        if r < 6:
+            return sl()
+        if r < 8:
+            return {'op': 'instant'}
+        if r < 9:
+            return {'op': draw(st.sampled_from(['at_ge', 'at_eq'])), 't': draw(st.sampled_from([0, 1, 2, 3]))}
+        if r < 12:
+            return {'op': 'set_flag', 'i': draw(st.integers(0, 2)), 'v': draw(st.booleans())}
+        if r < 14:
+            return {'op': draw(st.sampled_from(['tset', 'tadd'])), 'i': draw(st.integers(0, 1)), 'v': draw(st.integers(0, 3))}
+        if r < 17:
+            return {'op': 'await', 'e': cond()}
+        if r < 19:
+            return {'op': 'lock', 'i': draw(st.integers(0, 1)), 'body': body(depth + 1, siblings, chain, 2)}
+        if r < 20:
+            return {'op': 'avail', 'i': draw(st.integers(0, 1))}
+        if r < 22:
+            item[0] += 1
+            return {'op': draw(st.sampled_from(['qput', 'qput', 'cput'])), 's': 0, 'v': item[0]}
+        if r < 24:
+            return {'op': draw(st.sampled_from(['qget', 'qget', 'cget'])), 's': 0}
+        if r < 25:
+            return {'op': draw(st.sampled_from(['qiter', 'citer'])), 's': 0, 'n': draw(st.sampled_from([1, 2, None])),
+                    'gap': draw(st.sampled_from([None, 0.5]))}
+        if r < 26:
+            return {'op': draw(st.sampled_from(['qclose', 'cclose'])), 's': 0}
+        if r < 29:
+            return {'op': draw(st.sampled_from(['borrow', 'borrow', 'claim'])), 'r': 'R',
+                    'amounts': {'a': draw(st.integers(0, 3)), 'b': draw(st.integers(0, 2))},
+                    'body': body(depth + 1, siblings, chain, 2)}
+        if r < 30 and resk == 'res':
+            return {'op': draw(st.sampled_from(['increase', 'decrease'])), 'r': 'R', 'amounts': {'a': draw(st.integers(0, 2))}}
+        if r < 31:
+            return {'op': 'transfer', 'p': draw(st.integers(0, 1)), 'total': draw(st.sampled_from([0, 1, 2, 4])),
+                    'thr': draw(st.sampled_from([None, 1, 2, 4]))}
+        if r < 32:
+            return {'op': draw(st.sampled_from(['interval', 'delay'])), 'p': draw(st.sampled_from([0, 0.5, 1])),
+                    'durs': [draw(st.sampled_from([None, 0, 0.5, 1])) for _ in range(draw(st.integers(0, 3)))]}
+        if r < 34 and siblings:
+            return {'op': 'cancel', 'ref': draw(st.sampled_from(siblings)), 'token': [draw(st.integers(0, 3))]}
+        if r < 35 and siblings:
+            return {'op': draw(st.sampled_from(['await_task', 'await_done'])), 'ref': draw(st.sampled_from(siblings))}
+        if r < 36 and chain:
+            cn = nm.act()
+            targets.append(cn)
+            return {'op': 'spawn_into', 'ref': draw(st.sampled_from(chain)),
+                    'child': {'name': cn, 'steps': [sl() for _ in range(draw(st.integers(0, 2)))]}}
+        if r < 37:
+            acts = [simple_act() for _ in range(draw(st.integers(0, 3)))]
+            return {'op': 'collect', 'acts': acts}
+        if r < 38:
+            acts = [simple_act(fail_ok=first_failures) for _ in range(draw(st.integers(0, 3)))]
+            st_ = {'op': 'first', 'acts': acts, 'count': draw(st.sampled_from([None, 0, 1, 1, 2]))}
+            if draw(st.booleans()):
+                st_['gap'] = draw(st.sampled_from([0.5, 1]))
+            return st_
+        if r < 39 and draw(st.integers(0, 2)) == 0:
+            return {'op': 'raise', 'eid': nm.eid(), 'cls': draw(st.sampled_from(EXC + ['A']))}
+        if depth < maxdepth:
+            return block(depth + 1, chain)
+        return sl()
+
+    def body(depth, siblings, chain, maxlen):
+        return [step(depth, siblings, chain) for _ in range(draw(st.integers(0, maxlen)))]
+
+    def block(depth, chain):
+        name = nm.blk()
+        blk = {'op': 'scope', 'name': name, 'catch': draw(st.integers(0, 3)) > 0, 'children': [], 'body': []}
+        if draw(st.integers(0, 2)) == 0:
+            blk['op'], blk['notif'] = 'until', notif()
+        kids = [nm.act() for _ in range(draw(st.integers(0, 3)))]
+        targets.extend(kids)
+        for cn in kids:
+            ch = {'name': cn, 'steps': body(depth, [k for k in kids if k != cn], chain + [name], 4)}
+            if draw(st.integers(0, 5)) == 0:
+                ch['volatile'] = True
+            if draw(st.integers(0, 5)) == 0:
+                ch['after'] = draw(st.sampled_from([0, 0.5, 1]))
+            blk['children'].append(ch)
+        blk['body'] = body(depth, kids, chain + [name], 3)
+        return blk
+
+    nroots = draw(st.integers(2, 4 if big else 3)) if size is None else size
+    roots = []
+    for _ in range(nroots):
+        rn = nm.act()
+        steps = []
+        for _ in range(draw(st.integers(1, 4))):
+            steps.append(block(0, []) if draw(st.integers(0, 2)) == 0 else step(0, [], []))
+        roots.append({'name': rn, 'steps': steps})
+    prog = {'start': draw(st.sampled_from([0, 0, 0, -1])), 'objs': objs, 'roots': roots}
+    if draw(st.integers(0, 5)) == 0:
+        prog['till'] = draw(st.sampled_from([0 if prog['start'] == 0 else 1, 1, 2, 5]))
+    return {'prog': prog, 'targets': targets}
